@@ -61,6 +61,20 @@ SAMPLES = [(".git", True), (".x", True), ("..a", True), (".", True), ("a", False
 
 def classify_hidden_pred(expr, var: str, keeps_when_true: bool) -> str:
     """'exact' if the predicate keeps exactly the names not starting with '.', else a description."""
+    # a conjunction: conjuncts that are not pure tests of the name are additional criteria
+    if isinstance(expr, ast.BoolOp) and isinstance(expr.op, ast.And) and keeps_when_true:
+        pure, extra = [], []
+        for v in expr.values:
+            names = {n.id for n in ast.walk(v) if isinstance(n, ast.Name)}
+            calls = [c for c in ast.walk(v) if isinstance(c, ast.Call) and not (isinstance(c.func, ast.Attribute) and c.func.attr in ("startswith", "endswith"))]
+            (extra if (names - {var}) or calls else pure).append(v)
+        if extra:
+            base = "exact"
+            if pure:
+                base = classify_hidden_pred(pure[0] if len(pure) == 1 else ast.BoolOp(op=ast.And(), values=pure), var, True)
+            more = " and ".join(unparse(e) for e in extra)
+            return (f"besides the dot test, names are also dropped unless `{more[:90]}`: entries below a directory pruned this way "
+                    f"are never tested individually" + ("" if base == "exact" else f"; and {base}"))
     lits = {n.value for n in ast.walk(expr) if isinstance(n, ast.Constant) and isinstance(n.value, str)}
     try:
         for name, hidden in SAMPLES:
